@@ -3,6 +3,7 @@
   Evaluates the *same definitions* the theorems are about.
 -/
 import Driver.Sexp
+import BorshModel.Spec
 open Borsh Driver
 
 def strict? : Sx → Option Bool
@@ -20,6 +21,18 @@ def runCase (xs : List Sx) : String :=
     match ty? t, val? v with
     | some t, some v =>
       if HasTy t v then showOut hexOf (toVec t v) else "bad-case ill-typed"
+    | _, _ => "bad-case parse"
+  | [.atom "spec", t, v] =>
+    match ty? t, val? v with
+    | some t, some v =>
+      if HasTy t v then
+        match Spec.enc t v with
+        | .ok bs => "ok " ++ hexOf bs
+        | .error .nan => "err invalidData nanSer"
+        | .error .tooLong => "err invalidData simple"
+        | .error .zst => "err invalidData zst"
+        | .error .illTyped => "bad-case spec-ill-typed"
+      else "bad-case ill-typed"
     | _, _ => "bad-case parse"
   | [.atom "dec", st, t, b] =>
     match strict? st, ty? t, bytes? b with
